@@ -33,6 +33,7 @@ type c03Op struct {
 type c03Case struct {
 	Ops     []c03Op
 	Decide  []int          // per marker id: 0 allow, 1 ban, 2 kill
+	Src     []int          // per marker id: decision for the *source* path of a rename (the destination uses Decide)
 	Other   map[string]int // decision per out-of-list syscall name (only consulted when Default == "trace")
 	Default string         // kill | trace
 	BanRet  int
@@ -98,6 +99,10 @@ func c03GenCase(rt *rapid.T) c03Case {
 		return ops
 	}
 	c.Ops = gen(0, rapid.IntRange(3, 12).Draw(rt, "n"), "t")
+	c.Src = make([]int, nextK)
+	for i := range c.Src {
+		c.Src[i] = rapid.SampledFrom([]int{0, 0, 1, 1, 2}).Draw(rt, "src")
+	}
 	c.Decide = make([]int, nextK)
 	for i := range c.Decide {
 		c.Decide[i] = rapid.SampledFrom([]int{0, 0, 0, 1, 1, 2}).Draw(rt, "decide")
@@ -221,6 +226,12 @@ func c03Run(c c03Case, root string, rec *vh.Recorder) error {
 	ptrace.BanRet = syscall.Errno(c.BanRet)
 	defer func() { ptrace.BanRet = syscall.EACCES }()
 
+	renameK := map[int]bool{}
+	for _, f := range flat {
+		if f.op.Kind == "rename" {
+			renameK[f.op.K] = true
+		}
+	}
 	h := &recHandler{}
 	h.Decide = func(r hRecord) ptracer.TraceAction {
 		d := 0
@@ -230,6 +241,9 @@ func c03Run(c c03Case, root string, rec *vh.Recorder) error {
 			k, _ := strconv.Atoi(m[1])
 			if k < len(c.Decide) {
 				d = c.Decide[k]
+				if renameK[k] && strings.HasSuffix(r.Arg, fmt.Sprintf("/p%d", k)) && k < len(c.Src) {
+					d = c.Src[k]
+				}
 			}
 		}
 		return []ptracer.TraceAction{ptracer.TraceAllow, ptracer.TraceBan, ptracer.TraceKill}[d]
@@ -248,7 +262,20 @@ func c03Run(c c03Case, root string, rec *vh.Recorder) error {
 
 	decisionOf := func(f c03Flat) (int, bool) { // decision, isTracedOrOther
 		switch f.op.Kind {
-		case "mkdir", "create", "unlink", "rename", "stat", "readlink":
+		case "rename":
+			// two paths, two verdicts: the strictest wins (any kill => kill, else any ban => ban)
+			a, b := c.Decide[f.op.K], 0
+			if f.op.K < len(c.Src) {
+				b = c.Src[f.op.K]
+			}
+			if a == 2 || b == 2 {
+				return 2, true
+			}
+			if a == 1 || b == 1 {
+				return 1, true
+			}
+			return 0, true
+		case "mkdir", "create", "unlink", "stat", "readlink":
 			return c.Decide[f.op.K], true
 		case "other":
 			if c.Default == "kill" {
